@@ -160,6 +160,14 @@ def vars_in_path_condition(c):
 def explore_case(res, fn, tier, max_paths=200000, budget_s=None, on_path=None, query_timeout_ms=10000):
     """Run core.explore and fold the outcome into a CaseResult."""
     deadline = None if budget_s is None else time.time() + budget_s
+    from symx import loader as _loader
+
+    inner = fn
+
+    def fn(c):
+        _loader.restore_state()  # every path starts from the package's import-time state (a fresh process)
+        return inner(c)
+
     stats, results, cexs, complete = core.explore(
         fn, max_paths=max_paths, deadline=deadline, on_path=on_path, query_timeout_ms=query_timeout_ms, max_cex=200
     )
